@@ -40,11 +40,14 @@ pub struct ReadPlan {
     pub maxlen: usize,
     /// stop(code) once this many bytes were read
     pub stop: Option<(u64, u64)>,
+    /// the application reads this long after it was told the stream is readable (data piles up
+    /// in the receive buffer meanwhile)
+    pub lazy_ms: Option<u64>,
 }
 
 impl Default for ReadPlan {
     fn default() -> Self {
-        Self { unordered_from: None, maxlen: usize::MAX, stop: None }
+        Self { unordered_from: None, maxlen: usize::MAX, stop: None, lazy_ms: None }
     }
 }
 
@@ -94,6 +97,7 @@ pub struct RecvSt {
     pub unordered: bool,
     pub delivered: Ranges,
     pub terminal: Option<RTerm>,
+    pub lazy_pending: bool,
 }
 
 #[derive(Clone, Debug, Default)]
@@ -137,17 +141,23 @@ pub struct WorkloadCfg {
     pub check_data: bool,
     /// whether unexpected API results (ClosedStream on an open stream, …) are violations
     pub strict_api: bool,
+    /// probability x/1000 that a reader is lazy (reads some milliseconds after each notification)
+    pub lazy: u32,
 }
 
 impl Default for WorkloadCfg {
     fn default() -> Self {
-        Self { unordered: 0, stop: 0, resp_max: 0, check_data: true, strict_api: true }
+        Self { unordered: 0, stop: 0, resp_max: 0, check_data: true, strict_api: true, lazy: 0 }
     }
 }
+
+pub const TAG_LAZY: u64 = 6 << 40;
 
 pub struct Workload {
     pub cfg: WorkloadCfg,
     pub sides: BTreeMap<u32, SideState>,
+    /// (connection, stream) of scheduled lazy reads, indexed by wake tag
+    pub lazy_q: Vec<(u32, u64)>,
     /// connection keys (client incarnations) whose traffic is rewritten by a hostile peer: no
     /// data / API expectations hold there
     pub unchecked: std::collections::BTreeSet<u32>,
@@ -164,7 +174,7 @@ fn sid_from(v: u64) -> StreamId {
 
 impl Workload {
     pub fn new(cfg: WorkloadCfg) -> Self {
-        Self { cfg, sides: BTreeMap::new(), unchecked: Default::default() }
+        Self { cfg, sides: BTreeMap::new(), lazy_q: Vec::new(), unchecked: Default::default() }
     }
 
     pub fn add_side(&mut self, inc: u32, is_client: bool, plans: Vec<StreamPlan>) {
@@ -214,7 +224,7 @@ impl Workload {
                 }
             }
             Event::Stream(StreamEvent::Opened { dir }) => self.accept_all(w, inc, *dir),
-            Event::Stream(StreamEvent::Readable { id }) => self.pump_recv(w, inc, sid_u64(*id)),
+            Event::Stream(StreamEvent::Readable { id }) => self.notify_readable(w, inc, sid_u64(*id)),
             Event::Stream(StreamEvent::Writable { id }) => {
                 let sid = sid_u64(*id);
                 if let Some(st) = self.sides.get_mut(&inc).unwrap().sends.get_mut(&sid) {
@@ -396,7 +406,7 @@ impl Workload {
                     );
                     if plan.dir == Dir::Bi {
                         let rp = self.draw_read_plan(w);
-                        self.sides.get_mut(&inc).unwrap().recvs.insert(sid, RecvSt { plan: rp, pos: 0, unordered: false, delivered: Ranges::new(), terminal: None });
+                        self.sides.get_mut(&inc).unwrap().recvs.insert(sid, RecvSt { plan: rp, pos: 0, unordered: false, delivered: Ranges::new(), terminal: None, lazy_pending: false });
                     }
                     if plan.prio != 0 {
                         let _ = w.conn_mut(inc).send_stream(id).set_priority(plan.prio);
@@ -412,6 +422,9 @@ impl Workload {
         rp.maxlen = *w.ch.pick("app.read.maxlen", &[usize::MAX, 1, 7, 100, 1200, 4096]);
         if w.ch.chance("app.read.unordered", self.cfg.unordered, 1000) {
             rp.unordered_from = Some(w.ch.range_log("app.read.unordered_from", 0, 20_000));
+        }
+        if w.ch.chance("app.read.lazy", self.cfg.lazy, 1000) {
+            rp.lazy_ms = Some(w.ch.range_log("app.read.lazy_ms", 1, 2000));
         }
         if w.ch.chance("app.read.stop", self.cfg.stop, 1000) {
             rp.stop = Some((w.ch.range_log("app.read.stop_at", 0, 20_000), 1 + w.ch.range("app.read.stop_code", 0, 1000)));
@@ -441,7 +454,7 @@ impl Workload {
                 return;
             }
             let rp = self.draw_read_plan(w);
-            self.sides.get_mut(&inc).unwrap().recvs.insert(sid, RecvSt { plan: rp, pos: 0, unordered: false, delivered: Ranges::new(), terminal: None });
+            self.sides.get_mut(&inc).unwrap().recvs.insert(sid, RecvSt { plan: rp, pos: 0, unordered: false, delivered: Ranges::new(), terminal: None, lazy_pending: false });
             if dir == Dir::Bi {
                 let cap = self.cfg.resp_max.min(self.sides[&inc].resp_cap);
                 let total = if cap > 0 { w.ch.range_log("app.resp.size", 0, cap) } else { 0 };
@@ -468,7 +481,7 @@ impl Workload {
                 );
                 self.pump_send(w, inc, sid);
             }
-            self.pump_recv(w, inc, sid);
+            self.notify_readable(w, inc, sid);
         }
     }
 
@@ -579,6 +592,32 @@ impl Workload {
                     return;
                 }
             }
+        }
+    }
+
+    /// a Readable notification (or the accept of a stream): read now, or later if lazy
+    pub fn notify_readable(&mut self, w: &mut World, inc: u32, sid: u64) {
+        let lazy = self.sides.get(&inc).and_then(|s| s.recvs.get(&sid)).and_then(|r| if r.terminal.is_none() { r.plan.lazy_ms.map(|ms| (ms, r.lazy_pending)) } else { None });
+        match lazy {
+            Some((_, true)) => {}
+            Some((ms, false)) => {
+                self.sides.get_mut(&inc).unwrap().recvs.get_mut(&sid).unwrap().lazy_pending = true;
+                let idx = self.lazy_q.len() as u64;
+                self.lazy_q.push((inc, sid));
+                w.wake_in(ms * crate::world::MS, TAG_LAZY + idx);
+                w.probes.hit("lazy_read_scheduled");
+            }
+            None => self.pump_recv(w, inc, sid),
+        }
+    }
+
+    pub fn on_lazy_wake(&mut self, w: &mut World, idx: u64) {
+        let Some(&(inc, sid)) = self.lazy_q.get(idx as usize) else { return };
+        if let Some(r) = self.sides.get_mut(&inc).and_then(|s| s.recvs.get_mut(&sid)) {
+            r.lazy_pending = false;
+        }
+        if self.sides.get(&inc).is_some_and(|s| s.lost.is_none() && !s.closed_locally) {
+            self.pump_recv(w, inc, sid);
         }
     }
 
